@@ -47,13 +47,18 @@ func (f *fileEvent) OnEvent(progress *PackageProgress) {
 			"",
 		}, "\n")
 	case ProgressStageStreamData:
-		curPack := extension.CurrentPackage
-		str += fmt.Sprintf(" 文件传输中[%s] 进度[%d/%d] 偏移[%d]", curPack.FileName,
-			curPack.CurrentSize, curPack.FileSize, curPack.Offset)
+		if curPack := extension.CurrentPackage; curPack != nil {
+			str += fmt.Sprintf(" 文件传输中[%s] 进度[%d/%d] 偏移[%d]", curPack.FileName,
+				curPack.CurrentSize, curPack.FileSize, curPack.Offset)
+		}
 	case ProgressStageSupplementary:
-		curPack := extension.CurrentPackage
-		str += fmt.Sprintf(" 文件补传传输中[%s] 进度[%d/%d] 偏移[%d]", curPack.FileName,
-			curPack.CurrentSize, curPack.FileSize, curPack.Offset)
+		// 终端上报完成但还有缺失数据时 可能还没有收到过任何文件数据
+		if curPack := extension.CurrentPackage; curPack != nil {
+			str += fmt.Sprintf(" 文件补传传输中[%s] 进度[%d/%d] 偏移[%d]", curPack.FileName,
+				curPack.CurrentSize, curPack.FileSize, curPack.Offset)
+		} else {
+			str += " 文件补传 等待终端补传数据"
+		}
 	case ProgressStageStreamDataComplete:
 		str += " 目前传输文件整体进度:\n"
 		for name, v := range progress.Record {
